@@ -200,6 +200,15 @@ pub fn build(ctx: BuildContext<SimBp>) -> libcnb::Result<BuildResult, SimErr> {
         }
         BuildKind::Ok => {}
     }
+    if b.store_tamper != 0 {
+        // author code that manages `store.toml` by hand (seeded change C05-15)
+        let p = world.ctx.layers_dir.join("store.toml");
+        if b.store_tamper == 1 {
+            let _ = std::fs::remove_file(&p);
+        } else {
+            let _ = std::fs::write(&p, "[metadata]\nscratch = true\n");
+        }
+    }
     let mut rb = BuildResultBuilder::new();
     if let Some(l) = &b.launch {
         let mut lb = LaunchBuilder::new();
